@@ -60,6 +60,10 @@ func init() {
 		case "rogue":
 			r, in := al.SimulateRogue(parseFrac(p[0]), parseFrac(p[1]))
 			return encRows(rowsOf(al)) + " " + strJoin(r) + " " + strJoin(in)
+		case "shufflesites":
+			// rates outside [0,1] make the library call os.Exit: the driver only sends rates inside
+			rg := al.ShuffleSites(parseFrac(p[0]), parseFrac(p[1]), atob(p[2]))
+			return encRows(rowsOf(al)) + " " + strJoin(rg)
 		case "rarefy":
 			// rarefy <nb> <name=count;...>: three runs from the same seed must agree
 			counts := map[string]int{}
